@@ -122,8 +122,18 @@ func (e c08Expr) Shape() string {
 
 var c08Keys = []string{"cat", "order", "band", "tags"} // "order"/"band" contain or/and on purpose
 
-// non-numeric vocabulary (init checks that none parses as a float or a boolean)
-var c08Vocab = []string{"red", "Red", "blue", "green", "light", "light blue", "città", "north-west", "v2", "the"}
+// c08AltKeys: key shapes a random case may use instead of the classic four (the templates
+// always use the classic four): a key that differs from another one only in case, keys with
+// '_', '-', '.', digits, and the names the server itself filters on (memory_layer also
+// contains "or"). A metadata field is named by its exact key.
+func c08AltKeys(r *vkit.Rand) []string {
+	return []string{"cat", "Cat", vkit.Pick(r, []string{"order", "memory_layer"}), vkit.Pick(r, []string{"_pinned", "k-1.x", "tags", "type"})}
+}
+
+// non-numeric vocabulary (init checks that none parses as a float or a boolean); includes
+// strings with a leading / trailing / doubled blank (a quoted literal denotes exactly the
+// string between the quotes)
+var c08Vocab = []string{"red", "Red", "blue", "green", "light", "light blue", "città", "north-west", "v2", "the", " red", "red ", "light  blue"}
 
 func init() {
 	for _, w := range c08Vocab {
@@ -144,6 +154,8 @@ type c08Gen struct {
 	r       *vkit.Rand
 	ids     []string
 	dim     int
+	keys    []string        // metadata keys of this case (classic four unless the random group varies them)
+	big     int             // number of ids of the scale template (by tier)
 	noLists bool            // generator guard of D-C08-1: no new non-empty list values
 	deleted map[string]bool // ids deleted at least once
 	notes   []string        // history annotations (type changes, re-adds) for counters / distinct keys
@@ -151,7 +163,7 @@ type c08Gen struct {
 
 func c08NewGen(r *vkit.Rand) *c08Gen {
 	n := r.Range(6, 10)
-	g := &c08Gen{r: r, dim: r.Range(2, 4), deleted: map[string]bool{}}
+	g := &c08Gen{r: r, dim: r.Range(2, 4), deleted: map[string]bool{}, keys: c08Keys}
 	for i := 0; i < n; i++ {
 		g.ids = append(g.ids, fmt.Sprintf("v%d", i))
 	}
@@ -222,6 +234,8 @@ func c08KindOf(v any) string {
 			return "list0"
 		}
 		return "list"
+	case map[string]any:
+		return "obj"
 	}
 	return fmt.Sprintf("%T", v)
 }
@@ -265,7 +279,7 @@ func (g *c08Gen) meta() map[string]any {
 	m := map[string]any{}
 	n := g.r.Range(1, 4)
 	for i := 0; i < n; i++ {
-		m[vkit.Pick(g.r, c08Keys)] = g.value()
+		m[vkit.Pick(g.r, g.keys)] = g.value()
 	}
 	return m
 }
@@ -322,15 +336,26 @@ func (g *c08Gen) step(ctx *vkit.Ctx, x *vexec.Exec, ix string, avoid bool) {
 			}
 			items = append(items, types.BatchObject{Id: id, Vector: g.vec(), Metadata: g.meta()})
 		}
-		x.VAddBatch(ix, items)
+		// VImport is the third entry point that adds records (it bypasses the log and becomes
+		// durable through the snapshot VImportCommit takes): "not on how the state was reached".
+		// Same sequencing as vexec.Gen.Step: the commit follows at once, so the model is right
+		// after any later restart. Not drawn while D-C08-1 is known (the commit is a snapshot).
+		if !avoid && r.Chance(0.4) {
+			if x.VImport(ix, items) == nil {
+				x.VImportCommit(ix)
+				g.note("import")
+			}
+		} else {
+			x.VAddBatch(ix, items)
+		}
 	case p < 72 && len(live) > 0 && r.Chance(0.15): // overwrite through a value of another type that PRINTS the same
 		// The look-alike (a numeric- or boolean-looking string) is outside the asserted
 		// domain, so it is only a transient: it is overwritten again before anything is
 		// evaluated. What is asserted is the state after the second write.
 		id := vkit.Pick(r, live)
-		key := vkit.Pick(r, c08Keys)
+		key := vkit.Pick(r, g.keys)
 		var first, second any
-		switch r.Intn(5) {
+		switch r.Intn(7) {
 		case 0: // number -> its decimal string -> fresh value
 			n := g.num()
 			x.VSetMetadata(ix, id, map[string]any{key: n})
@@ -345,6 +370,12 @@ func (g *c08Gen) step(ctx *vkit.Ctx, x *vexec.Exec, ix string, avoid bool) {
 		case 3: // "true"/"false" -> that boolean
 			bv := r.Chance(0.5)
 			first, second = fmt.Sprint(bv), bv
+		case 5: // indexed value -> null -> fresh value (null is outside the asserted domain: transient only)
+			x.VSetMetadata(ix, id, map[string]any{key: g.value()})
+			first, second = nil, g.value()
+		case 6: // indexed value -> nested object -> fresh value (objects are outside the asserted domain: transient only)
+			x.VSetMetadata(ix, id, map[string]any{key: g.value()})
+			first, second = map[string]any{"a": 1.0, "b": g.str()}, g.value()
 		default: // one-element list -> the list of its words (lists print their elements space separated)
 			if g.noLists {
 				n := g.num()
@@ -365,7 +396,7 @@ func (g *c08Gen) step(ctx *vkit.Ctx, x *vexec.Exec, ix string, avoid bool) {
 		props := map[string]any{}
 		n := r.Range(1, 2)
 		for i := 0; i < n; i++ {
-			key := vkit.Pick(r, c08Keys)
+			key := vkit.Pick(r, g.keys)
 			old, has := cur[key]
 			var nv any
 			switch {
@@ -384,7 +415,9 @@ func (g *c08Gen) step(ctx *vkit.Ctx, x *vexec.Exec, ix string, avoid bool) {
 				nv = g.value()
 			}
 			props[key] = nv
-			g.note("set:" + c08KindOf(old) + ">" + c08KindOf(nv))
+		}
+		for _, key := range vexec.SortedKeys(props) { // one note per key actually written (a key drawn twice is one transition)
+			g.note("set:" + c08KindOf(cur[key]) + ">" + c08KindOf(props[key]))
 		}
 		x.VSetMetadata(ix, id, props)
 	case p < 86 && len(live) > 0: // delete
@@ -417,7 +450,47 @@ func (g *c08Gen) step(ctx *vkit.Ctx, x *vexec.Exec, ix string, avoid bool) {
 
 // ---- expressions -------------------------------------------------------------------------
 
+// c08FmtNum writes f as a decimal literal. Besides the three strconv notations it sometimes
+// uses another everyday spelling of the same number (upper-case exponent, explicit plus sign,
+// no zero before the point, leading zeros, a trailing zero after the point); every spelling is
+// checked here to parse back to exactly f, otherwise the plain one is kept.
 func c08FmtNum(r *vkit.Rand, f float64) string {
+	s := c08FmtNumPlain(r, f)
+	if !r.Chance(0.15) {
+		return s
+	}
+	neg := strings.HasPrefix(s, "-")
+	body := strings.TrimPrefix(s, "-")
+	sign := ""
+	if neg {
+		sign = "-"
+	}
+	alt := s
+	switch r.Intn(5) {
+	case 0:
+		alt = strings.ToUpper(s) // 1E+21, 2.5E-07
+	case 1:
+		if !neg {
+			alt = "+" + s
+		}
+	case 2:
+		if strings.HasPrefix(body, "0.") {
+			alt = sign + body[1:] // .5, -.25
+		}
+	case 3:
+		alt = sign + "00" + body // 007, -002.5
+	default:
+		if strings.Contains(body, ".") && !strings.ContainsAny(body, "eE") {
+			alt = s + "0" // 2.50
+		}
+	}
+	if g, err := strconv.ParseFloat(alt, 64); err != nil || g != f {
+		return s
+	}
+	return alt
+}
+
+func c08FmtNumPlain(r *vkit.Rand, f float64) string {
 	abs := f
 	if abs < 0 {
 		abs = -abs
@@ -491,7 +564,7 @@ func (g *c08Gen) litNum(p c08Pools) float64 {
 
 func (g *c08Gen) clause(p c08Pools) c08Clause {
 	r := g.r
-	c := c08Clause{Key: vkit.Pick(r, c08Keys)}
+	c := c08Clause{Key: vkit.Pick(r, g.keys)}
 	if r.Chance(0.04) {
 		c.Key = "ghost" // a field no record has
 	}
@@ -533,33 +606,41 @@ func (g *c08Gen) renderClause(c c08Clause) string {
 	return c.Key + sp() + c.Op + sp() + c.Shown
 }
 
+// number of OR blocks / of clauses in a block: mostly 1-3, sometimes 4 or 5 (more OR blocks
+// after a block whose running intersection became empty, long AND chains)
+var c08Sizes = []int{1, 1, 1, 1, 1, 1, 1, 2, 2, 2, 2, 2, 3, 3, 4, 5}
+
 func (g *c08Gen) expr(p c08Pools) c08Expr {
 	r := g.r
 	var e c08Expr
-	nOr := vkit.Pick(r, []int{1, 1, 2, 2, 3})
+	nOr := vkit.Pick(r, c08Sizes)
 	var blocks []string
 	for i := 0; i < nOr; i++ {
-		nAnd := vkit.Pick(r, []int{1, 1, 2, 2, 3})
+		nAnd := vkit.Pick(r, c08Sizes)
 		var blk []c08Clause
 		var parts []string
 		for j := 0; j < nAnd; j++ {
 			c := g.clause(p)
+			if j > 0 && r.Chance(0.08) { // the same clause twice in one block (may be rendered differently)
+				c = blk[r.Intn(len(blk))]
+			}
 			blk = append(blk, c)
 			parts = append(parts, g.renderClause(c))
 		}
 		e.Blocks = append(e.Blocks, blk)
 		txt := parts[0]
 		for _, s := range parts[1:] {
-			txt += vkit.Pick(r, []string{" AND ", " AND ", " and ", " And ", "  AND  ", "\tand "}) + s
+			txt += vkit.Pick(r, []string{" AND ", " AND ", " AND ", " and ", " And ", "  AND  ", "\tand ", "\nAND\n", " and\r\n"}) + s
 		}
 		blocks = append(blocks, txt)
 	}
 	e.Text = blocks[0]
 	for _, s := range blocks[1:] {
-		e.Text += vkit.Pick(r, []string{" OR ", " OR ", " or ", " Or ", "  OR ", " or\t"}) + s
+		e.Text += vkit.Pick(r, []string{" OR ", " OR ", " OR ", " or ", " Or ", "  OR ", " or\t", "\nOR ", "\r\nor\r\n"}) + s
 	}
 	if r.Chance(0.05) {
-		e.Text = " " + e.Text + " "
+		ws := vkit.Pick(r, []string{" ", " ", "\n", "\t"})
+		e.Text = ws + e.Text + ws
 	}
 	return e
 }
@@ -648,6 +729,12 @@ func c08Eval(ctx *vkit.Ctx, cs *vkit.Case, x *vexec.Exec, g *c08Gen, ix, prov st
 		for _, id := range got {
 			gotSet[id] = true
 		}
+		// "returns precisely the live ids": an id is returned once, not once per internal node
+		// that ever carried it
+		if len(got) != len(gotSet) {
+			c08Witness(cs, prov, e, mi, want, got)
+			cs.Fail("[%s] VFilter(%q) returned an id more than once: %v (documented semantics give %v)", prov, e.Text, got, vexec.SortedKeys(want))
+		}
 		if !reflect.DeepEqual(gotSet, want) && !(len(gotSet) == 0 && len(want) == 0) {
 			var missing, extra []string
 			for id := range want {
@@ -674,6 +761,46 @@ func c08Eval(ctx *vkit.Ctx, cs *vkit.Case, x *vexec.Exec, g *c08Gen, ix, prov st
 			cs.Fail("[%s] VFilter(%q) = %v, documented semantics over the live metadata give %v (missing %v, extra %v; %s)",
 				prov, e.Text, vexec.SortedKeys(gotSet), vexec.SortedKeys(want), missing, extra, strings.Join(detail, " "))
 		}
+		// The same call with a limit smaller than the answer. What the property settles for
+		// it: every id returned satisfies the filter ("returns precisely the live ids whose
+		// current metadata satisfies it") and none is returned twice. How many come back is
+		// only counted (the property does not speak about the limit).
+		if len(want) >= 2 {
+			lim := 1
+			if g.r.Chance(0.5) {
+				lim = len(want) - 1
+			}
+			part, err := x.E.VFilter(ix, e.Text, lim)
+			ctx.Count("vfilter.limited.calls", 1)
+			if err != nil {
+				c08Witness(cs, prov, e, mi, want, nil)
+				cs.Fail("[%s] VFilter(%q, limit %d) rejected a well-formed expression: %v", prov, e.Text, lim, err)
+			}
+			seen := map[string]bool{}
+			for _, id := range part {
+				if !want[id] || seen[id] {
+					c08Witness(cs, prov, e, mi, want, part)
+					why := "<not live>"
+					if rec := mi.Recs[id]; rec != nil {
+						why = vexec.CanonJSON(rec.Meta)
+					}
+					if seen[id] {
+						cs.Fail("[%s] VFilter(%q, limit %d) returned %s more than once: %v", prov, e.Text, lim, id, part)
+					}
+					cs.Fail("[%s] VFilter(%q, limit %d) returned %s (%s) which does not satisfy the filter; reference set %v, result %v",
+						prov, e.Text, lim, id, why, vexec.SortedKeys(want), part)
+				}
+				seen[id] = true
+			}
+			switch {
+			case len(part) == lim:
+				ctx.Count("vfilter.limited.full", 1)
+			case len(part) < lim:
+				ctx.Count("vfilter.limited.short", 1)
+			default:
+				ctx.Count("vfilter.limited.over", 1)
+			}
+		}
 		// the same filter through the search path: results must be inside the reference set
 		cs.Attach("current_call", fmt.Sprintf("[%s] VSearch(%s, k=%d, filter=%q)", prov, ix, max(n, 1), e.Text))
 		res, err := x.E.VSearch(ix, q, max(n, 1), e.Text, "", 0, 1.0, nil)
@@ -685,6 +812,8 @@ func c08Eval(ctx *vkit.Ctx, cs *vkit.Case, x *vexec.Exec, g *c08Gen, ix, prov st
 		if len(res) > 0 {
 			st.searchHits++
 			ctx.Count("vsearch.nonempty", 1)
+		} else if len(want) > 0 {
+			ctx.Count("vsearch.empty_but_reference_nonempty", 1) // never asserted (C06 judges completeness of the search path)
 		}
 		for _, id := range res {
 			if !want[id] {
@@ -712,14 +841,30 @@ func c08Witness(cs *vkit.Case, prov string, e c08Expr, mi *vexec.MIndex, want ma
 // ---- provenance pipeline -----------------------------------------------------------------
 
 func c08Cfg(r *vkit.Rand, name string) vexec.IndexCfg {
-	return vexec.IndexCfg{
+	cfg := vexec.IndexCfg{
 		Name:   name,
 		Metric: vkit.Pick(r, []distance.DistanceMetric{distance.Euclidean, distance.Cosine}),
 		Prec:   distance.Float32,
 		M:      vkit.Pick(r, []int{4, 16}),
 		EfC:    vkit.Pick(r, []int{8, 200}),
-		Lang:   vkit.Pick(r, []string{"", "", "english"}),
+		Lang:   vkit.Pick(r, []string{"", "", "english", "italian"}),
 	}
+	if r.Chance(0.12) { // created directly in the compressed precision (the compress tail is skipped then)
+		cfg.Prec = distance.Float16
+		if cfg.Metric == distance.Cosine {
+			cfg.Prec = distance.Int8
+		}
+	}
+	return cfg
+}
+
+// c08FullMeta: a value under every key of the case (the most secondary-index entries a record can leave behind).
+func (g *c08Gen) fullMeta() map[string]any {
+	m := map[string]any{}
+	for _, k := range g.keys {
+		m[k] = g.value()
+	}
+	return m
 }
 
 // c08StripLists (generator guard of D-C08-1): replaces every live non-empty list value by a
@@ -746,7 +891,7 @@ func c08StripLists(x *vexec.Exec, g *c08Gen, ix string) int {
 }
 
 // c08Run drives one case: history -> expressions -> the same expressions in every provenance.
-func c08Run(ctx *vkit.Ctx, cs *vkit.Case, history func(x *vexec.Exec, g *c08Gen, ix string, avoid bool)) {
+func c08Run(ctx *vkit.Ctx, cs *vkit.Case, varyKeys bool, history func(x *vexec.Exec, g *c08Gen, ix string, avoid bool)) {
 	avoid := ctx.IsKnown(c08Finding)
 	x := vexec.NewExec(cs, cs.SubDir("data"))
 	defer func() {
@@ -755,9 +900,52 @@ func c08Run(ctx *vkit.Ctx, cs *vkit.Case, history func(x *vexec.Exec, g *c08Gen,
 		}
 	}()
 	g := c08NewGen(cs.R)
+	g.big = ctx.N(120, 400)
+	if varyKeys && cs.R.Chance(0.35) { // the templates name the classic keys literally
+		g.keys = c08AltKeys(cs.R)
+		ctx.Count("variant.alt_keys", 1)
+	}
 	ix := "f"
+	// Secondary indexes are kept per index NAME and internal ids restart in every index. Two
+	// histories the answer must not depend on ("not on how the state was reached"):
+	// (a) an earlier index of the same name, filled and dropped (sometimes with a snapshot or
+	//     a restart in between, so that the drop is also replayed over a snapshot that still
+	//     holds the index) before the index under test is created;
+	// (b) a sibling index "g" holding the same ids under the same keys with other values; it is
+	//     evaluated too (after the first provenance of "f", right after "f" was compressed, and
+	//     after the last provenance).
+	// Neither is drawn while D-C08-1 is known (they hold lists through snapshots).
+	if !avoid && cs.R.Chance(0.2) {
+		ctx.Count("variant.prelude_drop", 1)
+		x.VCreate(c08Cfg(cs.R, ix))
+		for _, id := range g.ids[:cs.R.Range(3, 5)] {
+			x.VAdd(ix, id, g.vec(), g.fullMeta())
+		}
+		switch cs.R.Intn(3) {
+		case 1:
+			x.SaveSnapshot()
+		case 2:
+			x.Restart()
+		}
+		x.VDeleteIndex(ix)
+		if cs.R.Chance(0.3) {
+			x.Restart()
+		}
+		g.note("prelude-drop")
+	}
 	cfg := c08Cfg(cs.R, ix)
 	x.VCreate(cfg)
+	sib := ""
+	if !avoid && cs.R.Chance(0.25) {
+		ctx.Count("variant.sibling_index", 1)
+		sib = "g"
+		scfg := c08Cfg(cs.R, sib)
+		scfg.Prec = distance.Float32
+		x.VCreate(scfg)
+		for _, id := range g.ids[:cs.R.Range(3, min(6, len(g.ids)))] {
+			x.VAdd(sib, id, g.vec(), g.fullMeta())
+		}
+	}
 	history(x, g, ix, avoid)
 	histKinds := x.KindKey()
 	histNotes := strings.Join(g.notes, ",")
@@ -781,6 +969,20 @@ func c08Run(ctx *vkit.Ctx, cs *vkit.Case, history func(x *vexec.Exec, g *c08Gen,
 		c08Eval(ctx, cs, x, g, ix, p, exprs, st)
 	}
 	eval("live")
+	evalSibling := func(p string) {
+		if sib == "" {
+			return
+		}
+		provs = append(provs, p)
+		c08Eval(ctx, cs, x, g, sib, p, exprs[:nexpr/4], &c08Stats{})
+	}
+	evalSibling("sibling")
+	if sib != "" { // incremental maintenance next to the index under test: one type change, one delete
+		smi := x.M.Idx[sib]
+		sids := vexec.SortedKeys(smi.Recs)
+		x.VSetMetadata(sib, sids[0], map[string]any{vkit.Pick(cs.R, g.keys): g.value()})
+		x.VDelete(sib, sids[len(sids)-1])
+	}
 
 	phases := []string{"replay", "rewrite"}
 	if !avoid {
@@ -789,6 +991,14 @@ func c08Run(ctx *vkit.Ctx, cs *vkit.Case, history func(x *vexec.Exec, g *c08Gen,
 	for i := len(phases) - 1; i > 0; i-- {
 		j := cs.R.Intn(i + 1)
 		phases[i], phases[j] = phases[j], phases[i]
+	}
+	if !avoid && cs.R.Chance(0.5) { // more often than by the shuffle alone, the updates below follow the snapshot restore directly
+		for i, p := range phases {
+			if p == "snapshot" {
+				phases = append(append(phases[:i:i], phases[i+1:]...), "snapshot")
+				break
+			}
+		}
 	}
 	runPhase := func(p string) {
 		switch p {
@@ -824,7 +1034,7 @@ func c08Run(ctx *vkit.Ctx, cs *vkit.Case, history func(x *vexec.Exec, g *c08Gen,
 			switch {
 			case p < 70 && len(mi.Recs) > 0:
 				id := vkit.Pick(cs.R, vexec.SortedKeys(mi.Recs))
-				key := vkit.Pick(cs.R, c08Keys)
+				key := vkit.Pick(cs.R, g.keys)
 				nv := g.value()
 				g.note("set:" + c08KindOf(mi.Recs[id].Meta[key]) + ">" + c08KindOf(nv))
 				x.VSetMetadata(ix, id, map[string]any{key: nv})
@@ -846,21 +1056,37 @@ func c08Run(ctx *vkit.Ctx, cs *vkit.Case, history func(x *vexec.Exec, g *c08Gen,
 	mutate(cs.R.Range(2, 5))
 	exprs = append(exprs, g.exprs(cs, x.M.Idx[ix], nexpr/4)...)
 	eval("snapshot+updates")
+	// The updates above live only in the log tail behind the snapshot: a restart now replays
+	// deletes, re-adds and metadata merges ON TOP of the restored snapshot (recovery applies
+	// them through other code than a plain log replay). In 40% of the cases.
+	if cs.R.Chance(0.4) {
+		x.Restart()
+		eval("snapshot+updates+restart")
+	}
 
-	if len(x.M.Idx[ix].Recs) > 0 {
+	switch {
+	case cfg.Prec != distance.Float32:
+		ctx.Count("compress.skipped_created_compressed", 1)
+	case len(x.M.Idx[ix].Recs) > 0:
 		target := distance.PrecisionType(distance.Float16)
 		if cfg.Metric == distance.Cosine {
 			target = distance.Int8
 		}
 		x.VCompress(ix, target)
 		eval("compress")
+		evalSibling("sibling-after-compress") // the rebuild of "f" must not touch the maps of "g" (before a restart rebuilds everything)
 		x.Restart()
 		eval("compress+restart")
 		mutate(cs.R.Range(2, 5))
 		eval("compress+updates")
-	} else {
+		if cs.R.Chance(0.4) { // log tail replayed on top of the snapshot of a compressed index
+			x.Restart()
+			eval("compress+updates+restart")
+		}
+	default:
 		ctx.Count("compress.skipped_empty_index", 1)
 	}
+	evalSibling("sibling-end")
 
 	ctx.Eval(1)
 	for _, k := range x.Kinds {
@@ -963,6 +1189,52 @@ var c08Templates = []struct {
 		x.VSetMetadata(ix, g.ids[3], map[string]any{"cat": 1.0})
 		g.note("set:str>num")
 	}},
+	{"scale", func(x *vexec.Exec, g *c08Gen, ix string, avoid bool) {
+		// many ids: the numeric index holds long runs of equal values ("order": 5 values)
+		// and many distinct ones ("band") spread over several B-tree nodes, the bitmaps hold
+		// runs of ids; added through the concurrent batch path, then type changes, deletes
+		// and re-adds in the middle of the id range
+		r := g.r
+		g.ids = nil
+		for i := 0; i < g.big; i++ {
+			g.ids = append(g.ids, fmt.Sprintf("s%03d", i))
+		}
+		base := g.num()
+		for lo := 0; lo < len(g.ids); lo += 50 {
+			var items []types.BatchObject
+			for i := lo; i < min(lo+50, len(g.ids)); i++ {
+				m := map[string]any{"order": float64(i % 5), "band": base + float64(i)/4, "cat": c08Vocab[i%len(c08Vocab)]}
+				if i%3 == 0 {
+					m["tags"] = g.valueOf("list")
+				}
+				items = append(items, types.BatchObject{Id: g.ids[i], Vector: g.vec(), Metadata: m})
+			}
+			x.VAddBatch(ix, items)
+		}
+		for k := 0; k < len(g.ids)/8; k++ {
+			id := vkit.Pick(r, g.ids)
+			if x.M.Idx[ix].Recs[id] == nil {
+				x.VAdd(ix, id, g.vec(), map[string]any{"order": g.str(), "band": float64(r.Intn(5))})
+				g.note("readd")
+				continue
+			}
+			switch r.Intn(3) {
+			case 0:
+				x.VDelete(ix, id)
+				g.deleted[id] = true
+				g.note("delete")
+			case 1:
+				x.VSetMetadata(ix, id, map[string]any{"order": g.str(), "cat": float64(r.Intn(5))})
+				g.note("set:num>str")
+				g.note("set:str>num")
+			default:
+				x.VSetMetadata(ix, id, map[string]any{"band": float64(r.Intn(5)), "order": float64(r.Intn(5))})
+				g.note("set:num>num")
+			}
+		}
+		x.Maintenance(ix, "vacuum")
+		g.note("vacuum")
+	}},
 }
 
 // ---- the check ---------------------------------------------------------------------------
@@ -970,16 +1242,18 @@ var c08Templates = []struct {
 func TestVerifC08(t *testing.T) {
 	vkit.Run(t, "C08", func(ctx *vkit.Ctx) {
 		ctx.Assume("asserted domain: strings from a non-numeric vocabulary, float64 numbers, booleans, lists of strings; literals: quoted strings, unquoted numbers, (un)quoted booleans")
-		ctx.Assume("metadata reaches the engine JSON-normalised (numbers float64); Go int values, numeric-looking strings, quoted numeric literals and keywords/operators inside quoted literals are only counted (group lenient)")
+		ctx.Assume("metadata reaches the engine JSON-normalised (numbers float64); Go int values, Go-typed slices/maps, null, objects, numeric-looking strings, quoted numeric literals and keywords/operators inside quoted literals are judged only for provenance agreement and the =/!= partition (group lenient); null and nested objects occur in the asserted histories only as transients")
+		ctx.Assume("a field is named by its exact key; a quoted literal denotes exactly the string between the quotes; a numeric literal is any decimal spelling strconv.ParseFloat reads as the same float64")
+		ctx.Assume("with a limit smaller than the answer only 'every returned id satisfies the filter, none twice' is judged; CONTAINS(...) clauses are outside the property's expression language")
 		ctx.Assume("a provenance is evaluated only after VGet of every id agrees with the history (primary metadata intact)")
 		ctx.Probe(c08Finding, c08ProbeLists)
 		ctx.Group("template", len(c08Templates)*ctx.N(6, 50), func(cs *vkit.Case) {
 			tp := c08Templates[cs.Idx%len(c08Templates)]
 			ctx.Count("template."+tp.name, 1)
-			c08Run(ctx, cs, tp.run)
+			c08Run(ctx, cs, false, tp.run)
 		})
 		ctx.Group("random", ctx.N(1000, 20000), func(cs *vkit.Case) {
-			c08Run(ctx, cs, func(x *vexec.Exec, g *c08Gen, ix string, avoid bool) {
+			c08Run(ctx, cs, true, func(x *vexec.Exec, g *c08Gen, ix string, avoid bool) {
 				nops := cs.R.Range(12, ctx.N(40, 60))
 				for i := 0; i < nops; i++ {
 					g.step(ctx, x, ix, avoid)
